@@ -4,6 +4,7 @@ mod ebrworld;
 mod qlworld;
 mod rcdirected;
 mod rcpairs;
+mod rcsys;
 mod rcrun;
 mod rcworld;
 mod sched;
@@ -251,6 +252,30 @@ fn real_main() {
             write_out(&file, &ctl.out);
             println!(
                 "{{\"runs\":[{{\"file\":{:?},\"vocab\":\"pairs\",\"threads\":2,\"scenarios\":{},\"aborted\":0,\"lines\":{},\"sites\":{{{}}},\"ops\":{{{}}}}}]}}",
+                file,
+                n,
+                ctl.out.len(),
+                ctl.site_hits.iter().map(|(k, v)| format!("\"{}\":{}", k, v)).collect::<Vec<_>>().join(","),
+                ctl.op_hits.iter().map(|(k, v)| format!("\"{}\":{}", k, v)).collect::<Vec<_>>().join(",")
+            );
+            ctl.quit();
+        }
+        "rc-sys" => {
+            rc_setup();
+            // --sit / --a / --b : comma separated names (empty = all); --residue r : epoch residue mod 16 at the start (-1 = as is)
+            let lists: Vec<Vec<String>> = ["--sit", "--a", "--b"]
+                .iter()
+                .map(|k| sarg(&args, k, "").split(',').filter(|x| !x.is_empty()).map(|x| x.to_string()).collect())
+                .collect();
+            let residue: i64 = arg(&args, "--residue", -1);
+            let out = sarg(&args, "--out", "sys");
+            let mut ctl = rcworld::Ctl::new(2);
+            let sel = |l: &Vec<String>, x: &str| l.is_empty() || l.iter().any(|y| y == x);
+            let n = rcsys::run_sys(&mut ctl, &|s, a, b| sel(&lists[0], s) && sel(&lists[1], a) && sel(&lists[2], b), if residue < 0 { None } else { Some(residue as usize) });
+            let file = format!("{}.t2.ndjson", out);
+            write_out(&file, &ctl.out);
+            println!(
+                "{{\"runs\":[{{\"file\":{:?},\"vocab\":\"sys\",\"threads\":2,\"scenarios\":{},\"aborted\":0,\"lines\":{},\"sites\":{{{}}},\"ops\":{{{}}}}}]}}",
                 file,
                 n,
                 ctl.out.len(),
